@@ -24,7 +24,7 @@ ALLOPS = ops.BINARY + [o for o in ops.UNARY if o != 'sqrt'] + SERIES
 
 def floors(tier):
     f = {'distinct_nontrivial': 2500 if tier == 'quick' else 40000, 'variant_permuted': 600, 'variant_padded': 600,
-         'variant_dense': 100, 'exception_parity_checked': 20}
+         'variant_dense': 100, 'exception_parity_checked': 20, 'wrapper_configured_cases': 300}
     for o in ALLOPS:
         f['op_' + o] = (25 if tier == 'quick' else 300) if 'polarity' not in o else (10 if tier == 'quick' else 100)
     return f
@@ -36,11 +36,14 @@ def plan(tier, seed):
     if tier == 'quick':
         cfgs = gen.sig_orderings(1, 2) + rng.sample(gen.sig_orderings(3, 3), 12) + rng.sample(gen.pqr_all(4, 4), 5)
         cfgs += [gen.random_custom_cfg(rng, rng.choice((2, 3, 3))) for _ in range(6)] + gen.NAMED[:2]
+        cfgs += [dict(c, opts={'wrapper': w}) for c, w in zip(rng.sample(gen.sig_orderings(2, 3), 6), ('wraps', 'identity') * 3)]
         per = 5
         nshards = 16
     else:
         cfgs = gen.sig_orderings(1, 3) + gen.pqr_all(4, 4) + rng.sample(gen.pqr_all(5, 5), 6)
         cfgs += [gen.random_custom_cfg(rng, rng.choice((2, 3, 3, 4))) for _ in range(40)] + gen.NAMED
+        cfgs += [dict(c, opts={'wrapper': w}) for c, w in zip(rng.sample(gen.sig_orderings(2, 3), 24), ('wraps', 'identity') * 12)]
+        cfgs += [dict(c, opts={'cse': False}) for c in rng.sample(gen.sig_orderings(2, 3), 6)]
         per = 10
         nshards = 64
     for c in cfgs:
@@ -173,6 +176,8 @@ def one_case(ctx, alg, iso, cfg, name, op):
                           error=repr(r1 if e1 else r2)[:200], value=show_elem(mv_dict(val)) if hasattr(val, 'keys') else repr(val)[:200], **wit)
         return
     ctx.count('op_' + op)
+    if cfg.get('opts', {}).get('wrapper'):
+        ctx.count('wrapper_configured_cases')
     for v in variants:
         ctx.count({'perm': 'variant_permuted', 'pad': 'variant_padded', 'dense': 'variant_dense'}[v[2]])
     ctx.case(cid)
